@@ -22,13 +22,14 @@ import (
 // ---------------------------------------------------------------- script
 
 type Op struct {
-	Kind  string `json:"kind"` // exchange | tick | state | restart | fair
+	Kind  string `json:"kind"` // exchange | tick | state | restart | fair | replay
 	I     int    `json:"i"`
 	J     int    `json:"j,omitempty"`
 	State uint32 `json:"state,omitempty"`
 	Drop  string `json:"drop,omitempty"` // "", sync, ack, ack2
 	Stale bool   `json:"stale,omitempty"`
 	Perm  []int  `json:"perm,omitempty"` // fair: order of pairs; negative = reversed direction
+	K     int    `json:"k,omitempty"`    // replay: index (mod number captured) of the ack2 message to redeliver
 }
 
 type Ghost struct {
@@ -85,7 +86,10 @@ func genScript(t *rapid.T) Script {
 	nops := rapid.IntRange(1, 25).Draw(t, "nops")
 	for k := 0; k < nops; k++ {
 		var op Op
-		switch rapid.IntRange(0, 9).Draw(t, "kind") {
+		switch rapid.IntRange(-1, 9).Draw(t, "kind") {
+		case -1:
+			op.Kind = "replay"
+			op.K = rapid.IntRange(0, 40).Draw(t, "k")
 		case 0, 1, 2, 3:
 			op.Kind = "exchange"
 			op.I = rapid.IntRange(0, n-1).Draw(t, "i")
@@ -156,6 +160,14 @@ var errDropped = errors.New("verif: message dropped")
 type net struct {
 	handlers map[address.Address]func(context.Context, gossip.Message) (gossip.Message, error)
 	drop     string
+	// captured: every ack2 message (member records only) that was put on the wire, with its
+	// target; a replay op redelivers an old one later (a delayed or duplicated datagram)
+	captured []capturedMsg
+}
+
+type capturedMsg struct {
+	target address.Address
+	msg    gossip.Message
 }
 
 type server struct {
@@ -183,6 +195,10 @@ func (c *client) Send(ctx context.Context, target address.Address, req gossip.Me
 	isSync := len(req.Nodes) == 0 && len(req.Digests) != 0
 	if isSync && c.net.drop == "sync" {
 		return gossip.Message{}, errDropped
+	}
+	if !isSync {
+		cp := gossip.Message{Nodes: req.Nodes.Copy()}
+		c.net.captured = append(c.net.captured, capturedMsg{target, cp})
 	}
 	if !isSync && c.net.drop == "ack2" {
 		return gossip.Message{}, errDropped
@@ -362,6 +378,23 @@ func execute(sc Script, rep *kit.Report) error {
 		switch op.Kind {
 		case "exchange":
 			if err := exchange(step, op.I, op.J, op.Drop); err != nil {
+				return err
+			}
+		case "replay":
+			if len(s.net.captured) == 0 {
+				continue
+			}
+			cm := s.net.captured[op.K%len(s.net.captured)]
+			h, ok := s.net.handlers[cm.target]
+			if !ok {
+				continue
+			}
+			before := s.views()
+			if _, herr := h(ctx, gossip.Message{Nodes: cm.msg.Nodes.Copy()}); herr != nil {
+				return kit.Fail("replay-error", "step %d: redelivering an old ack2 failed: %v", step, herr)
+			}
+			rep.Class("stale-ack2-redelivered")
+			if err := s.checkForward(step, fmt.Sprintf("redelivery of captured ack2 #%d to %s", op.K%len(s.net.captured), cm.target), before, s.views(), -1); err != nil {
 				return err
 			}
 		case "tick":
